@@ -254,7 +254,7 @@ def prog_lean(p: Prog) -> list:
     return out
 
 
-def to_lean(p: Prog, calls: list, fuel: int = 20000) -> str:
+def to_lean(p: Prog, calls: list, fuel: int = 4000) -> str:
     """calls: [(function index, [argument expressions, closed])]"""
     out = prog_lean(p) + ["calls", str(fuel), str(len(calls))]
     for f, args in calls:
